@@ -359,7 +359,7 @@ class ModelBase:
                 # dict(pairs): a sequence of (key, value) tuples
                 pr = self.iter_item(interp, st, a0, None, None)
                 if pr is not None and pr.ty == 'tuple' and pr.elts is not None and len(pr.elts) == 2:
-                    return AV(ty='dict', keyelem=pr.elts[0], elem=pr.elts[1], deps=d, fresh=True, maybe_empty=a0.maybe_empty, overwrite=True)
+                    return AV(ty='dict', keyelem=pr.elts[0], elem=pr.elts[1], deps=d, fresh=True, maybe_empty=a0.maybe_empty, overwrite=True, genfn=a0.genfn)
                 return AV(ty='dict', deps=d, fresh=True, open_kw=True)
             return AV(ty='dict', kw=dict(kwargs), deps=d, fresh=True)
         if name in ('int', 'float'):
